@@ -16,6 +16,30 @@ pub fn cname(i: usize) -> String {
     format!("{}. {}", i + 1, tails[i % tails.len()])
 }
 
+/// exactly as many course places as participants with choices (everybody chooses every course, so it is feasible), plus 1-3
+/// participants without choices who instruct nothing: they need no place although they are neither instructors nor assigned
+fn tight_inst(r: &mut Rng) -> Inst {
+    let nc = r.range(1, 4);
+    let mut courses = Vec::new();
+    let mut places = 0;
+    for _ in 0..nc {
+        let max = r.range(0, 3);
+        places += max;
+        courses.push(ICourse { min: 0, max, instr: vec![], fixed: false, fbits: 1.0f32.to_bits(), obits: 0.0f32.to_bits() });
+    }
+    let mut parts: Vec<Vec<(usize, u32)>> = Vec::new();
+    for _ in 0..places {
+        let mut cs: Vec<usize> = (0..nc).collect();
+        r.shuffle(&mut cs);
+        parts.push(cs.iter().enumerate().map(|(rank, c)| (*c, rank as u32)).collect());
+    }
+    for _ in 0..r.range(1, 3) {
+        let at = r.below(parts.len() + 1);
+        parts.insert(at, Vec::new());
+    }
+    Inst { courses, parts, rooms: None, style: String::from("tight") }
+}
+
 pub fn run(seed: u64, count: usize, max_c: usize, max_p: usize, rooms_mode: usize, outdir: &str) {
     std::panic::set_hook(Box::new(|_| {}));
     let mut r = Rng::new(seed);
@@ -24,7 +48,10 @@ pub fn run(seed: u64, count: usize, max_c: usize, max_p: usize, rooms_mode: usiz
     for id in 0..count {
         let mc = 1 + (max_c - 1) * (id + 1) / count.max(1);
         let mp = 1 + (max_p - 1) * (id + 1) / count.max(1);
-        let inst = gen_inst(&mut r, mc.max(1), mp.max(1), rooms_mode);
+        let mut inst = gen_inst(&mut r, mc.max(1), mp.max(1), rooms_mode);
+        if id % 6 == 5 {
+            inst = tight_inst(&mut r);
+        }
         let hidden: Vec<Vec<String>> =
             (0..inst.courses.len()).map(|c| (0..(if r.chance(1, 4) { r.range(1, 2) } else { 0 })).map(|j| format!("H{}_{} Gast", c, j)).collect()).collect();
         let courses: Vec<cdecao::Course> = inst
